@@ -193,6 +193,15 @@ def run(ctx):
             d = [a for a in fx.find(domain="comb") if a.t == f"slave_sel_dec['{ch}'][i]"]
             ok = len(d) == 1 and d[0].v == f"slaves[i][0]({addr}[addr_shift:])"
             ctx.ob("L3", rel, dcls, f"{ch} decode: bit i = predicate of slave i on {addr}", ok, "" if ok else f"{[a.v for a in d]}")
+            # ... and nothing else drives the decode, whatever the number of slaves (a select tied high for a single slave routes
+            # unmapped addresses to it)
+            other = [a for a in fx.find() if (a.t == f"slave_sel_dec['{ch}']" or a.t.startswith(f"slave_sel_dec['{ch}'][")) and a not in d]
+            built = bool(d) and all(q.pg_active(d[0].pyguards, {"register": r_}) for r_ in (True, False)) and \
+                not any("len(slaves)" in c_ or c_.startswith("ns ") for c_, _ in d[0].pyguards)
+            ok = not other and built
+            ctx.ob("L3", rel, dcls, f"{ch} decode is the only driver of the select, for every number of slaves", ok,
+                   "" if ok else (f"`{other[0].t} <= {other[0].v}` {other[0].pyguards}" if other else f"decode built only under {d[0].pyguards if d else '?'}"),
+                   (other[0].line if other else (d[0].line if d else 0)))
         reg = [a for a in fx.find(domain="sync") if a.t.startswith("slave_sel_reg[")]
         ok = len(reg) == 1
         if ok:
